@@ -446,7 +446,11 @@ func setup() int {
 			return 2
 		}
 	}
-	fmt.Println("setup: specification parses; harness built")
+	if err := bindingSelfTest(dir); err != nil {
+		fmt.Println("setup: binding self-test failed:", err)
+		return 2
+	}
+	fmt.Println("setup: specification parses; harness built; binding self-test passed (recorded trace accepted, 4 corruptions and 1 removed line noticed)")
 	return 0
 }
 
